@@ -190,10 +190,13 @@ def random_case(rng, name, types=None, length=(15, 45), tags=("random",)):
             p = rng.choice(sorted(pipes))
             if socks[pipes[p]["sock"]] == "SUB":
                 # SUB walks its peers in hash order: a stalled peer would make the others' wires order-dependent
-                sc.add(rng.choice([f"credit {p} inf", f"wrerr {p} BrokenPipe", f"wrerr {p} ConnectionReset"]))
+                sc.add(rng.choice([f"credit {p} inf", f"wrerr {p} BrokenPipe", f"wrerr {p} ConnectionReset", f"wrerr1 {p} Interrupted",
+                                   f"wrerr1 {p} TimedOut"]))
             else:
+                # (wrerr1 = a TRANSIENT error: exactly one write fails)
                 sc.add(rng.choice([f"credit {p} {rng.choice([0, 1, 3, 10, 100])}", f"credit {p} inf", f"wrerr {p} BrokenPipe",
-                                   f"wrerr {p} ConnectionReset", f"wrerr {p} TimedOut"]))
+                                   f"wrerr {p} ConnectionReset", f"wrerr {p} TimedOut", f"wrerr1 {p} Interrupted",
+                                   f"wrerr1 {p} WouldBlock", f"wrerr1 {p} BrokenPipe", f"wrerr1 {p} TimedOut"]))
         elif r < 0.93:
             sc.add("drain")
         elif r < 0.95:
@@ -315,6 +318,67 @@ def reconnect_parked_cases():
                     out.append(c)
                     n += 1
     return out
+
+
+def reconnect_abandoned_cases():
+    """A peer is admitted under an announced identity X; the application polls recv (nothing there) k times and ABANDONS
+    the call, r times over; then a SECOND connection completes a valid handshake announcing the same X — while the first
+    is still open, or closed but not yet noticed — and sends: it has become a peer (C04), and what it sends is delivered
+    by later recv calls exactly as if no recv had been abandoned before (C14)."""
+    out = []
+    n = 0
+    for t, pt in FQ_PEER.items():
+        good = [{"REP": [b"", b"m%d" % i], "XPUB": [b"\x01m%d" % i]}.get(t, [b"m%d" % i]) for i in (1, 2)]
+        for polls, repeats in ((0, 1), (1, 1), (2, 1), (1, 3)):
+            for old_end in ("open", "eof"):
+                sc = Script()
+                sc.sock(1, t)
+                sc.attach(1, 1, pt, b"same")
+                for _ in range(repeats):
+                    f = sc.fut()
+                    sc.add(f"recv {f} 1")
+                    for _ in range(polls):
+                        sc.add(f"poll {f}")
+                    sc.add(f"drop {f}")
+                if old_end == "eof":
+                    sc.add("eof 1")
+                g = sc.fut()
+                sc.add(f"attach {g} 1 2", f"reveal 2 {hx(G + zmtp.ready(pt, b'same'))}", f"poll {g}")
+                for m in good:
+                    sc.reveal_msg(2, m)
+                futs = []
+                for _ in range(len(good) + 2):
+                    f = sc.fut()
+                    if t == "REP":
+                        sc.add(f"recv {f} 1", f"poll {f}", f"drop {f}")
+                        h = sc.fut()
+                        sc.add(f"send {h} 1 {msg_tok([b'r'])}", f"poll {h}", f"drop {h}")
+                    else:
+                        sc.add(f"recv {f} 1", f"poll {f}", f"drop {f}")
+                    futs.append(f)
+                c = sc.case(f"reconnect-abandoned-{t}-{polls}x{repeats}-{old_end}#{n}", ["reconnect-abandoned"])
+                want = [{"REP": m[1:], "ROUTER": [b"same"] + m}.get(t, m) for m in good]
+                c.expect = ("reconnect-abandoned", g, futs, want)
+                out.append(c)
+                n += 1
+    return out
+
+
+def reconnect_abandoned_oracle(case, lines):
+    if any(l.startswith(("PANIC", "ABORT", "TIMEOUT")) for l in lines):
+        return "panic/abort"
+    _, g, futs, want = case.expect
+    res = list(zip(case.ops, lines[1:]))
+    adm = [l for op, l in res if op == f"poll {g}"][-1]
+    if not adm.startswith("ready ok id="):
+        return f"a well-formed compatible peer announcing an identity that is already registered was rejected: {adm}"
+    got = [l for op, l in res if op.startswith("poll") and l.startswith("ready ok M[")]
+    wantl = ["ready ok M[" + show_frames(m) + "]" for m in want]
+    if got != wantl:
+        return (f"the second connection under the identity completed a valid handshake and was admitted, but what it sent is not "
+                f"delivered: later recv calls returned {got} (want {wantl}) — it never became a peer / abandoned recv calls changed "
+                "what later calls deliver")
+    return None
 
 
 def reconnect_parked_oracle(case, lines):
